@@ -86,3 +86,14 @@ type DateTime interface {
 	// GoTime returns the underlying time.Time object.
 	GoTime() time.Time
 }
+
+// unquote returns the contents of the JSON string in data, or data itself if
+// it is not enclosed in double quotes (in which case it will not parse as a
+// date or time, and so produce an error rather than a panic).
+func unquote(data []byte) string {
+	const quotes = 2
+	if len(data) >= quotes && data[0] == '"' && data[len(data)-1] == '"' {
+		return string(data[1 : len(data)-1])
+	}
+	return string(data)
+}
